@@ -1,6 +1,7 @@
 package main
 
 import (
+	"go/token"
 	"fmt"
 	"strings"
 
@@ -553,6 +554,73 @@ func runC19(c *Ctx) {
 			}
 		}
 		c.Require("C19.R6 download-order", FuncKey(dl)+": stop at target", p.Pos(dl.Pos()), "the download stops after the block with the target ID", okStop, "")
+		// The channel closing without an error is the only "download complete" signal the syncers
+		// get (they never compare the last block with the announced one): the downloader ends only
+		// (a) after delivering the block with the announced ID, (b) after delivering an error, or
+		// (c) when it is cancelled. A peer answering with a short batch must not end it silently.
+		{
+			nr := 0
+			for _, r := range Returns(dl) {
+				if r.Parent().Recover != nil && r.Block() == r.Parent().Recover {
+					continue // the exit taken after a recovered panic: not a path of the algorithm
+				}
+				nr++
+				why := ""
+				for _, f := range df.FactsAt(r.Block()) {
+					if !f.IsCmp && f.Truth && strings.Contains(f.B.String(), "bytes.Equal(") && strings.Contains(f.B.String(), ".end") {
+						why = "announced block delivered"
+					}
+					if f.IsCmp && f.Op == token.EQL && strings.HasPrefix(f.L.String(), "select#") && f.R.String() == "0" {
+						why = "cancelled"
+					}
+				}
+				if why == "" {
+					// an error was delivered on every way here: a send of a content whose err is set
+					isErrSend := func(in ssa.Instruction) bool {
+						sd, ok := in.(*ssa.Send)
+						if !ok {
+							return false
+						}
+						al, ok := valueRoot(sd.X).(*ssa.Alloc)
+						if !ok {
+							return false
+						}
+						for _, ref := range *al.Referrers() {
+							if fa, ok := ref.(*ssa.FieldAddr); ok {
+								if _, st := ownerOfFieldBase(fa.X.Type()); st != nil && fieldNameOf(st.Field(fa.Field)) == "err" {
+									for _, u := range *fa.Referrers() {
+										if _, isSt := u.(*ssa.Store); isSt {
+											return true
+										}
+									}
+								}
+							}
+						}
+						return false
+					}
+					sent := false
+					for _, in := range r.Block().Instrs {
+						if isErrSend(in) {
+							sent = true
+						}
+					}
+					if !sent {
+						for _, b := range blocksDeep(dl) {
+							for _, in := range b.Instrs {
+								if isErrSend(in) && instrDominates(in, r) {
+									sent = true
+								}
+							}
+						}
+					}
+					if sent {
+						why = "error delivered"
+					}
+				}
+				c.Require("C19.R6 download-ends-at-target-or-error", FuncKey(dl)+": return", p.InstrPos(r), "the download ends only after the announced block, after an error was delivered, or on cancellation", why != "", why)
+			}
+			c.MinInstances("C19.R6 download-ends-at-target-or-error", nr, 3)
+		}
 	}
 }
 
